@@ -698,7 +698,9 @@ func parseAllowIps(allowedIP []string) ([]util.IPInfo, error) {
 func parseBlackSqls(sqls []string) map[string]string {
 	sqlMap := make(map[string]string, 10)
 	for _, sql := range sqls {
-		sql = strings.TrimSpace(sql)
+		// handleQuery removes the closing ';' of a client statement before it is fingerprinted;
+		// take the configured entry the same way, otherwise "delete from t;" never matches
+		sql = strings.TrimSpace(strings.TrimRight(strings.TrimSpace(sql), ";"))
 		if len(sql) == 0 {
 			continue
 		}
